@@ -18,7 +18,10 @@ RULE = ('(a) (kind, left position, right position, left edge, right edge, value,
         'wraps away, far away; distinct by the tuple; non-trivial = the value is not inside the unwrapped scale (wrap != 0) or lies on / next '
         'to an edge.  (b) one case per plot (source file digest, film / format id): generated LIS files with random FILM + PRES tables '
         '(every track layout, every depth scale, every back-up mode, linear and logarithmic) and curves that are constant / on-edge / ramp / '
-        'sine / spiky / huge / tiny / negative-on-log / partly or wholly absent, LIS files whose channels are named as each built-in XML '
+        'sine / spiky / huge / tiny / negative-on-log / partly or wholly absent; one to three films (documented GCOD/GDEC spellings included), PRES destinations '
+        'naming one film, BOTH, ALL or several films by character, absent values -999.25 / -9999 / -32768 / -999 / 1e30 / 0, an integer plot scale override for a '
+        'third of the files, and for every other file a second log pass (other data, other absent value) plotted through the same Plot object; '
+        'XML-format and LAS plots likewise reuse one Plot object per format for half of the log passes; LIS files whose channels are named as each built-in XML '
         'plot format expects, the repository example LIS files, LAS text with the same names, PlotLogs end to end; non-trivial = the plot '
         'has at least one curve polyline.')
 ASSUMPTIONS = [
@@ -34,6 +37,11 @@ ASSUMPTIONS = [
     'frame depths are identified inside the SVG by a reference curve (constant, always present) plotted in the same film',
     'back-up modes: NB / GRAD draw only the unwrapped position, SHIF one back-up either side, WRAP (and unknown modes) every wrap; a point at the position of a suppressed wrap counts as unexplained',
     'the last one or two frames of the interval need not be plotted (the frame slice of the plot excludes its stop, which is found by a floor division of X values)',
+    'a PRES destination names a film by its identifier, two films by BOTH, all by ALL, otherwise every character of it that is a film identifier (FILMCfg documents "123"); '
+    'an output feeding a curve of the film must have its section in the plot',
+    'section comments carry the output name with markup characters escaped (Q&gt;): names are unescaped before they are matched with the model',
+    'a value <= 0 has no position on a logarithmic scale: wrapPos may raise; if it returns, the position must be inside the track',
+    'the plot scale override is an integer (XGrid documents and enforces an integral scale; the command line option is type=int) not larger than the largest film scale of the file',
 ]
 MECHANISMS = [
     ('TotalDepth.util.plot.PRESCfg', 'LineTransLin.wrapPos'), ('TotalDepth.util.plot.PRESCfg', 'LineTransLog10.wrapPos'),
@@ -132,6 +140,10 @@ def gen_wrap_case(rng, extreme=False):
         v = ll
     if math.isinf(v) or v != v:
         v = ll
+    if log and rng.random() < 0.03:
+        # no position exists for a non-positive value on a logarithmic scale: whatever wrapPos does, it must not hand out a
+        # position outside the track (the plot code skips the sample when the documented math exception is raised)
+        v, vc = rng.choice([0.0, -0.0, -1.0, -ll, -rl, -5e-324, -1e300, -999.25]), 'nonpositive-on-log'
     bu = rng.choice(BACKUPS)
     return log, lp, rp, ll, rl, v, bu, vc
 
@@ -154,6 +166,19 @@ def check_wrap_case(rec, P, case, cap):
           'leftL_hex': float(ll).hex(), 'rightL_hex': float(rl).hex(), 'value_hex': float(v).hex(), 'value_class': vc}
     # "all finite values": an intermediate (v - lL, rL - lL, v / lL, rL / lL or their quotient) that leaves the normal double range
     # makes the case a separately labelled class that is counted, not judged
+    if log and v <= 0:
+        rec.mon('wrap_in_track')
+        try:
+            w, pos = klass(lp, rp, ll, rl, bu).wrapPos(v)
+        except Exception as e:  # noqa
+            rec.cls('wrap:nonpositive-on-log:raises-' + type(e).__name__)
+            return None
+        rec.cls('wrap:nonpositive-on-log:returns')
+        tolp = 4 * EPS * max(abs(lp), abs(rp), rp - lp)
+        if not (isinstance(pos, (int, float)) and lp - tolp <= pos <= rp + tolp) and cap['n'] < 20:
+            cap['n'] += 1
+            rec.violation('wrap_in_track', 'outside-track', 'wrapPos(%r) on log %r..%r -> wrap %r position %r outside [%r, %r]' % (v, ll, rl, w, pos, lp, rp), dict(w_, wrap=repr(w), pos=repr(pos)))
+        return None
     big, small = Fraction(sys.float_info.max), Fraction(sys.float_info.min)
     if log:
         inters = [abs(Fraction(v) / Fraction(ll)), abs(Fraction(rl) / Fraction(ll))]
@@ -295,6 +320,13 @@ def parse_svg(path):
 RE_OUT = re.compile(r'Output (.*?) (START|END)')
 
 
+def _section_name(text):
+    """The output name of a section comment.  The writer escapes markup characters in comment text as it does in character
+    data (a parser hands a comment over literally), so a channel called Q> is announced as Q&gt; - undo that."""
+    from xml.sax.saxutils import unescape
+    return unescape(text.strip(), {'&quot;': '"', '&apos;': "'", '&#39;': "'", '&#34;': '"'}).strip()
+
+
 def svg_sections(root):
     """[(section name or None, [(x, y)], tag)] for every polyline / polygon / path in document order."""
     from lxml import etree
@@ -304,7 +336,7 @@ def svg_sections(root):
         if isinstance(e, etree._Comment):
             m = RE_OUT.search(e.text or '')
             if m:
-                cur = m.group(1).strip() if m.group(2) == 'START' else None
+                cur = _section_name(m.group(1)) if m.group(2) == 'START' else None
             continue
         if not isinstance(e.tag, str):
             continue
@@ -318,6 +350,18 @@ def svg_sections(root):
         elif tag == 'path':
             nums = [float(x) for x in re.findall(r'[-+]?\d*\.?\d+(?:[eE][-+]?\d+)?', e.get('d') or '')]
             out.append((cur, list(zip(nums[0::2], nums[1::2])), tag))
+    return out
+
+
+def svg_started(root):
+    """Names of the outputs for which the plot opened a section ("Output NAME START" comment), with or without polylines."""
+    from lxml import etree
+    out = set()
+    for e in root.iter():
+        if isinstance(e, etree._Comment):
+            m = RE_OUT.search(e.text or '')
+            if m and m.group(2) == 'START':
+                out.add(_section_name(m.group(1)))
     return out
 
 
@@ -411,6 +455,14 @@ def check_svg(rec, path, what, cap, model=None, film=None, ref_name=None, absent
     for c in model.curves:
         if fm.ident in [f for f in c.films(model)]:
             by_out.setdefault(c.outp.strip().decode('ascii'), []).append(c)
+    # every output that feeds a curve of this film has its section in the plot (a curve dropped from the film's
+    # configuration altogether would otherwise leave nothing to compare)
+    started = svg_started(root)
+    gone = sorted(o for o in by_out if o not in started)
+    if gone and cap['n'] < 20:
+        cap['n'] += 1
+        rec.violation('svg_points_explained', 'curve-section-missing', '%s: the plot has no section for output(s) %r although the PRES table sends %s to this film' % (
+            what, gone, [repr(c.mnem) for o in gone for c in by_out[o]]), dict(wit, outputs=gone, sections=sorted(started)))
     for sec in sorted({name for name, pts, tag in secs if name is not None}):
         curves = by_out.get(sec)
         if not curves:
@@ -585,6 +637,9 @@ def _tmp(ctx, name):
 
 
 def plot_generated_lis(ctx, k, cap, single_record=False):
+    """One generated LIS file with FILM / PRES tables, every film plotted; for every other file a second log pass (other
+    data, another absent value, same curves) is plotted with the *same* Plot object, as a caller that keeps the plot
+    configuration of a run of files would."""
     from tdv.gen import plotsrc as PS
     from TotalDepth.LIS.core import File, FileIndexer, LogiRec
     from TotalDepth.util.plot import Plot
@@ -597,9 +652,13 @@ def plot_generated_lis(ctx, k, cap, single_record=False):
     fp = _tmp(ctx, 'gen%d%s.lis' % (k, 's' if single_record else ''))
     with open(fp, 'wb') as f:
         f.write(data)
+    # scale override of the plot (0 = the film's own scale); never smaller-scaled than the films (frame spacing, see plotsrc)
+    maxscale = max(f.scale for f in m.films.values())
+    override = rng.choice([0, 0, 0] + [x for x in (20, 40, 100, 200, 240) if x <= maxscale])
     fi = File.FileRead(fp, theFileId=fp, keepGoing=False)
     idx = FileIndexer.FileIndex(fi)
     nrec = 0
+    pl = None
     for prs in idx.genPlotRecords(fromInternalRecords=True):
         nrec += 1
         lp = prs.logPass
@@ -608,8 +667,9 @@ def plot_generated_lis(ctx, k, cap, single_record=False):
         fi.seekLr(prs.tellPres)
         lrP = LogiRec.LrTableRead(fi)
         try:
-            pl = Plot.PlotReadLIS(lrF, lrP)
+            pl = Plot.PlotReadLIS(lrF, lrP, theScale=override) if override else Plot.PlotReadLIS(lrF, lrP)
         except Exception as e:  # noqa - the FILM / PRES tables are well formed: no plot configuration means no plot
+            pl = None
             rec.mon('lis_produces_plot')
             rec.case(('genplot', _h(data), 'config'), False, classes=['plot:lis-film', 'plot:raised'] + ['pres:without-' + d for d in m.dropped_columns])
             if cap['n'] < 20:
@@ -617,60 +677,92 @@ def plot_generated_lis(ctx, k, cap, single_record=False):
                 rec.violation('lis_produces_plot', 'raises', 'reading the FILM and PRES tables of a generated LIS file raised %s: %s (PRES columns dropped: %s)' % (
                     type(e).__name__, e, m.dropped_columns or 'none'),
                     {'source': 'generated LIS', 'exception': type(e).__name__, 'message': str(e)[:300], 'dropped_columns': m.dropped_columns,
-                     'curves': [[repr(c.mnem), repr(c.outp), repr(c.trac), repr(c.mode), c.ledg, c.redg] for c in m.curves], 'data_records': -(-len(m.x) // m.frames_per_record)}, exc=e)
+                     'films': [[repr(f.ident), repr(f.gcod), repr(f.gdec), repr(f.dsca)] for f in m.films.values()],
+                     'curves': [[repr(c.mnem), repr(c.outp), repr(c.trac), repr(c.dest), repr(c.mode), c.ledg, c.redg] for c in m.curves], 'data_records': -(-len(m.x) // m.frames_per_record)}, exc=e)
             continue
         if lp.totalFrames != len(m.x):
             raise RuntimeError('generated LIS file not read as written: %d frames, model %d' % (lp.totalFrames, len(m.x)))
-        for film in sorted(pl.filmIdS(), key=lambda mm: mm.m):
-            fid = (film.m.replace(b'\x00', b' ') + b'    ')[:4]
-            fm = m.films[fid]
-            curves_here = [c for c in m.curves if fid in c.films(m)]
-            classes = ['plot:lis-film', 'film:' + fm.gcod.decode().strip() + '/' + fm.gdec.decode().strip(), 'film:scale-%d' % fm.scale,
-                       'plot:up' if m.up else 'plot:down', 'plot:x-units-' + m.x_units.decode().strip()]
-            classes += ['pres:without-' + d for d in getattr(m, 'dropped_columns', [])]
-            for c in curves_here:
-                classes.append('curve:mode-' + c.mode.decode('ascii').strip())
-                classes.append('curve:log' if c.log else 'curve:lin')
-                classes.append('curve:trac-' + c.trac.decode().strip())
-                classes.append('curve:shape-' + str(m.shapes.get(c.outp)))
-            wit = {'source': 'generated LIS', 'lis': data if len(data) < 4000 else data[:4000], 'film': repr(fid), 'gcod': repr(fm.gcod), 'scale': fm.scale, 'up': m.up,
-                   'frames': len(m.x), 'frames_per_record': m.frames_per_record,
-                   'curves': [[repr(c.mnem), repr(c.outp), repr(c.trac), repr(c.mode), c.ledg, c.redg] for c in curves_here]}
-            out = _tmp(ctx, 'gen%d_%s.svg' % (k, fid.decode().strip()))
-            rec.mon('lis_produces_plot')
-            try:
-                has = pl.hasDataToPlotLIS(lp, film)
-                r = pl.plotLogPassLIS(fi, lp, lp.xAxisFirstEngVal, lp.xAxisLastEngVal, film, out, frameStep=1, title='Plot <&> "%s"' % fid.decode()) if has else (None, None)
-            except Exception as e:  # noqa
-                rec.case(('genplot', _h(data), fid), False, classes=classes + ['plot:raised'])
-                if cap['n'] < 20:
-                    cap['n'] += 1
-                    rec.violation('lis_produces_plot', 'raises', 'plotting generated LIS film %r raised %s: %s' % (fid, type(e).__name__, e),
-                                  dict(wit, exception=type(e).__name__, message=str(e)[:300], data_records=-(-len(m.x) // m.frames_per_record)), exc=e)
-                continue
-            if not has or r[0] is None or not os.path.exists(out):
-                rec.case(('genplot', _h(data), fid), False, classes=classes + ['plot:none'])
-                if curves_here and cap['n'] < 20:
-                    cap['n'] += 1
-                    rec.violation('lis_produces_plot', 'no-plot', 'LIS log pass with curves for film %r produced no plot (hasDataToPlotLIS=%r)' % (fid, has), wit)
-                continue
-            absent = {}
-            for c in curves_here:
-                absent.setdefault(c.outp.strip().decode('ascii'), set()).update(m.absent.get(c.outp, set()))
-            n = check_svg(rec, out, 'generated LIS film %r' % fid, cap, model=m, film=fid, ref_name='REF', absent_by_section=absent, nframes=len(m.x), witness=wit)
-            rec.case(('genplot', _h(data), fid), bool(n), classes=classes,
-                     sample={'source': 'generated LIS', 'film': repr(fid), 'gcod': repr(fm.gcod), 'scale': fm.scale, 'frames': len(m.x), 'polylines': n,
-                             'curves': wit['curves'][:4]})
-            # only the reference curve (an in-scale constant) is certain to leave a polyline: other shapes may be absent throughout
-            if n == 0 and any(c.outp == b'REF ' for c in curves_here) and cap['n'] < 20:
-                cap['n'] += 1
-                rec.violation('lis_produces_plot', 'no-curve', 'plot of film %r has no curve polyline' % fid, wit)
-            try:
-                os.unlink(out)
-            except OSError:
-                pass
+        _plot_films(ctx, cap, pl, fi, lp, m, data, 'gen%d' % k, override, [])
     if nrec == 0:
         raise RuntimeError('generated LIS file yields no plot record set')
+    if pl is None or single_record or k % 2 == 0:
+        return
+    # ---- a second log pass through the same Plot object
+    spec2 = dict(spec, no_drop=True, shapes=None, nframes=rng.choice([12, 40, 80]), x0=rng.choice([500.0, 4321.5, 9000.0]),
+                 null=rng.choice([x for x in PS.NULLS if PS.q68(x) != m.null]))
+    data2, m2 = PS.lis_plot_file(rng, spec2)
+    fp2 = _tmp(ctx, 'gen%db.lis' % k)
+    with open(fp2, 'wb') as f:
+        f.write(data2)
+    fi2 = File.FileRead(fp2, theFileId=fp2, keepGoing=False)
+    for prs in FileIndexer.FileIndex(fi2).genPlotRecords(fromInternalRecords=True):
+        lp2 = prs.logPass
+        if lp2.totalFrames != len(m2.x):
+            raise RuntimeError('generated LIS file not read as written: %d frames, model %d' % (lp2.totalFrames, len(m2.x)))
+        _plot_films(ctx, cap, pl, fi2, lp2, m2, data2, 'gen%db' % k, override, ['plot:second-log-pass-same-Plot-object'])
+    try:
+        os.unlink(fp2)
+    except OSError:
+        pass
+
+
+def _plot_films(ctx, cap, pl, fi, lp, m, data, stem, override, extra_classes):
+    """Plot every film of the Plot object for one log pass and judge the SVG against the model of that log pass."""
+    rec = ctx.rec
+    for film in sorted(pl.filmIdS(), key=lambda mm: mm.m):
+        fid = (film.m.replace(b'\x00', b' ') + b'    ')[:4]
+        fm = m.films[fid]
+        curves_here = [c for c in m.curves if fid in c.films(m)]
+        classes = ['plot:lis-film', 'film:' + fm.gcod.decode().strip() + '/' + fm.gdec.decode().strip(), 'film:scale-%d' % fm.scale,
+                   'plot:up' if m.up else 'plot:down', 'plot:x-units-' + m.x_units.decode().strip(), 'plot:films-%d' % len(m.films),
+                   'plot:absent-value-%r' % m.null] + list(extra_classes)
+        if override:
+            classes.append('plot:scale-override-%d' % override)
+        classes += ['pres:without-' + d for d in getattr(m, 'dropped_columns', [])]
+        for c in curves_here:
+            classes.append('curve:mode-' + c.mode.decode('ascii').strip())
+            classes.append('curve:log' if c.log else 'curve:lin')
+            classes.append('curve:trac-' + c.trac.decode().strip())
+            classes.append('curve:shape-' + str(m.shapes.get(c.outp)))
+            d = c.dest.strip()
+            classes.append('curve:dest-' + ('ALL' if d == b'ALL' else 'BOTH' if d == b'BOTH' else 'one-film' if len(d) == 1 else 'several-films-by-character'))
+        wit = {'source': 'generated LIS', 'lis': data if len(data) < 4000 else data[:4000], 'film': repr(fid), 'gcod': repr(fm.gcod), 'gdec': repr(fm.gdec), 'scale': fm.scale,
+               'scale_override': override, 'up': m.up, 'absent_value': m.null, 'history': list(extra_classes),
+               'frames': len(m.x), 'frames_per_record': m.frames_per_record,
+               'curves': [[repr(c.mnem), repr(c.outp), repr(c.trac), repr(c.dest), repr(c.mode), c.ledg, c.redg] for c in curves_here]}
+        out = _tmp(ctx, '%s_%s.svg' % (stem, fid.decode().strip()))
+        rec.mon('lis_produces_plot')
+        try:
+            has = pl.hasDataToPlotLIS(lp, film)
+            r = pl.plotLogPassLIS(fi, lp, lp.xAxisFirstEngVal, lp.xAxisLastEngVal, film, out, frameStep=1, title='Plot <&> "%s"' % fid.decode()) if has else (None, None)
+        except Exception as e:  # noqa
+            rec.case(('genplot', _h(data), fid), False, classes=classes + ['plot:raised'])
+            if cap['n'] < 20:
+                cap['n'] += 1
+                rec.violation('lis_produces_plot', 'raises', 'plotting generated LIS film %r raised %s: %s' % (fid, type(e).__name__, e),
+                              dict(wit, exception=type(e).__name__, message=str(e)[:300], data_records=-(-len(m.x) // m.frames_per_record)), exc=e)
+            continue
+        if not has or r[0] is None or not os.path.exists(out):
+            rec.case(('genplot', _h(data), fid), False, classes=classes + ['plot:none'])
+            if curves_here and cap['n'] < 20:
+                cap['n'] += 1
+                rec.violation('lis_produces_plot', 'no-plot', 'LIS log pass with curves for film %r produced no plot (hasDataToPlotLIS=%r)' % (fid, has), wit)
+            continue
+        absent = {}
+        for c in curves_here:
+            absent.setdefault(c.outp.strip().decode('ascii'), set()).update(m.absent.get(c.outp, set()))
+        n = check_svg(rec, out, 'generated LIS film %r' % fid, cap, model=m, film=fid, ref_name='REF', absent_by_section=absent, nframes=len(m.x), witness=wit)
+        rec.case(('genplot', _h(data), fid), bool(n), classes=classes,
+                 sample={'source': 'generated LIS', 'film': repr(fid), 'gcod': repr(fm.gcod), 'scale': fm.scale, 'frames': len(m.x), 'polylines': n,
+                         'curves': wit['curves'][:4]})
+        # only the reference curve (an in-scale constant) is certain to leave a polyline: other shapes may be absent throughout
+        if n == 0 and any(c.outp == b'REF ' for c in curves_here) and cap['n'] < 20:
+            cap['n'] += 1
+            rec.violation('lis_produces_plot', 'no-curve', 'plot of film %r has no curve polyline' % fid, wit)
+        try:
+            os.unlink(out)
+        except OSError:
+            pass
 
 
 def xml_curve_table(formats_dir):
@@ -729,6 +821,20 @@ def inside_all(cs, v):
     return bool(cs) and all((not lg) and min(l, r) < v < max(l, r) for l, r, lg in cs)
 
 
+def _plot_for(ctx, rng, uid, classes):
+    """A Plot object for an XML format: half of the time the one this shard already used for earlier log passes (LIS and LAS,
+    other absent values, other channels), as a caller that keeps one configured Plot per format would."""
+    from TotalDepth.util.plot import Plot
+    cache = ctx.__dict__.setdefault('plot_objects', {})
+    if rng.random() < 0.5:
+        if uid in cache:
+            classes.append('plot:Plot-object-used-before')
+        else:
+            cache[uid] = Plot.PlotReadXML(uid)
+        return cache[uid]
+    return Plot.PlotReadXML(uid)
+
+
 def plot_xml_lis(ctx, k, cap, table, conf):
     from tdv.gen import plotsrc as PS
     from TotalDepth.LIS.core import File, FileIndexer
@@ -756,6 +862,7 @@ def plot_xml_lis(ctx, k, cap, table, conf):
     chan = {}
     absent = {}
     shapes = {}
+    null = PS.q68(rng.choice([x for x in PS.NULLS if x != 0.0]))       # the absent value this log pass declares
     for nm in names:
         cs = table[uid0].get(nm) or [c for u in uids for c in table[u].get(nm, [])][:1] or [(0.0, 1.0, False)]
         l, r, lg = cs[0]
@@ -769,13 +876,13 @@ def plot_xml_lis(ctx, k, cap, table, conf):
             shapes[nm] = rng.choice(['constant', 'ramp', 'sine', 'spiky', 'huge', 'tiny', 'negative', 'absent-runs', 'absent-runs', 'steps', 'zero', 'edge'])
             v = [PS.q68(x) for x in PS.shape_values(rng, shapes[nm], n, l, r)]
             ab = PS.absent_runs(rng, n) if shapes[nm] == 'absent-runs' else set()
-        chan[nm] = [PS.NULL if i in ab else (x if x != PS.NULL else 0.0) for i, x in enumerate(v)]
+        chan[nm] = [null if i in ab else (x if x != null else PS.q68(null + 1 if abs(null) < 1e6 else null / 2)) for i, x in enumerate(v)]
         absent[nm] = ab
     keys = [(nm.encode('ascii') + b'    ')[:4] for nm in names]
     frames = [PS.enc68(xs[i])[0] + b''.join(PS.enc68(chan[nm][i])[0] for nm in names) for i in range(n)]
     per = max(1, min(rng.choice([1, 3, 8, 20]), (n + 1) // 2, (1024 - 6) // len(frames[0])))
     chans = [(b'DEPT', x_units)] + [(kk, b'    ') for kk in keys]
-    lrs = [PS.file_head_tail(128), PS.dfsr(chans, up, spacing, x_units)] + PS.data_records(frames, per) + [PS.file_head_tail(129)]
+    lrs = [PS.file_head_tail(128), PS.dfsr(chans, up, spacing, x_units, absent=null)] + PS.data_records(frames, per) + [PS.file_head_tail(129)]
     data = PS.physical(lrs)
     fp = _tmp(ctx, 'xml%d.lis' % k)
     with open(fp, 'wb') as f:
@@ -797,9 +904,11 @@ def plot_xml_lis(ctx, k, cap, table, conf):
         wit = {'source': 'generated LIS, channels named for XML formats', 'format': uid, 'channels': names, 'matching': matching,
                'shapes': {nm: shapes[nm] for nm in matching}, 'up': up, 'frames': n, 'lis': data[:3000]}
         out = _tmp(ctx, 'xml%d_%s.svg' % (k, re.sub(r'\W', '_', uid)))
-        classes = ['plot:lis-xml-format', 'format:' + uid, 'plot:up' if up else 'plot:down'] + ['curve:shape-%s' % shapes[nm] for nm in matching]
+        classes = ['plot:lis-xml-format', 'format:' + uid, 'plot:up' if up else 'plot:down', 'plot:absent-value-%r' % null] + ['curve:shape-%s' % shapes[nm] for nm in matching]
+        wit['absent_value'] = null
         try:
-            pl = Plot.PlotReadXML(uid)
+            pl = _plot_for(ctx, rng, uid, classes)
+            wit['plot_object_used_before'] = 'plot:Plot-object-used-before' in classes
             has = pl.hasDataToPlotLIS(lp, uid)
             r = pl.plotLogPassLIS(fi, lp, lp.xAxisFirstEngVal, lp.xAxisLastEngVal, uid, out, frameStep=1, title='Format %s <&>' % uid) if has else (None, None)
         except Exception as e:  # noqa
@@ -915,7 +1024,8 @@ def plot_las(ctx, k, cap, table, conf):
                 file_name[nm] = rng.choice(alts)
     aliased = sorted(nm for nm in names if file_name[nm] != nm)
     fnames = [file_name[nm] for nm in names]
-    text, m = PS.las_plot_text(rng, fnames, nframes=rng.choice([20, 40, 80]), up=up, shapes={file_name[nm]: shapes[nm] for nm in names})
+    las_null = rng.choice([-999.25, -999.25, -9999.0, -999.0, -32768.0])
+    text, m = PS.las_plot_text(rng, fnames, nframes=rng.choice([20, 40, 80]), up=up, shapes={file_name[nm]: shapes[nm] for nm in names}, null=las_null)
     if aliased:
         for attr in ('channels', 'shapes', 'absent'):
             d = getattr(m, attr)
@@ -963,11 +1073,13 @@ def plot_las(ctx, k, cap, table, conf):
         out = _tmp(ctx, 'las%d_%s.svg' % (k, re.sub(r'\W', '_', uid)))
         wit = dict(probe, source='generated LAS', input='LAS', format=uid, curves=names, matching=matching, las=text[:1500],
                    vendor_mnemonics={nm: file_name[nm] for nm in aliased})
-        classes = ['plot:las-xml-format', 'format:' + uid]
+        classes = ['plot:las-xml-format', 'format:' + uid, 'plot:absent-value-%r' % las_null]
+        wit['absent_value'] = las_null
         if any(nm in aliased for nm in matching):
             classes.append('las:vendor-mnemonics-only' if all(nm in aliased for nm in matching) else 'las:vendor-mnemonics-some')
         try:
-            pl = Plot.PlotReadXML(uid)
+            pl = _plot_for(ctx, rng, uid, classes)
+            wit['plot_object_used_before'] = 'plot:Plot-object-used-before' in classes
             has = pl.hasDataToPlotLAS(las, uid)
             wit['hasDataToPlotLAS'] = bool(has)
             r = pl.plotLogPassLAS(las, las.x_axis_start, las.x_axis_stop, uid, out, frameStep=1, title='LAS <&> %s' % uid)
@@ -1006,13 +1118,14 @@ def plotlogs_end_to_end(ctx, cap, lis_path, las_path, las_names, table, conf, pr
         if fp is None:
             continue
         mon = 'lis_produces_plot' if kind == 'LIS' else 'las_produces_plot'
+        scale = ctx.sub_rng('plotlogs', kind).choice([0, 0, 100, 200, 500])       # the tool's --scale option (0: the film's / format's own)
         if kind == 'LIS':
-            opts = types.SimpleNamespace(recurse=False, keepGoing=True, LgFormat=[], apiHeader=False, LgFormat_min=0, scale=0)
-            wit = {'input': 'LIS', 'source': 'PlotLogs.PlotLogPasses'}
+            opts = types.SimpleNamespace(recurse=False, keepGoing=True, LgFormat=[], apiHeader=False, LgFormat_min=0, scale=scale)
+            wit = {'input': 'LIS', 'source': 'PlotLogs.PlotLogPasses', 'scale_option': scale}
         else:
             fmts = [u for u in sorted(table) if any(n in table[u] and n in conf[u] for n in las_names)][:2]
-            opts = types.SimpleNamespace(recurse=False, keepGoing=True, LgFormat=fmts, apiHeader=False, LgFormat_min=0, scale=0)
-            wit = dict(probe, input='LAS', source='PlotLogs.PlotLogPasses', formats=fmts, curves=las_names,
+            opts = types.SimpleNamespace(recurse=False, keepGoing=True, LgFormat=fmts, apiHeader=False, LgFormat_min=0, scale=scale)
+            wit = dict(probe, input='LAS', source='PlotLogs.PlotLogPasses', formats=fmts, curves=las_names, scale_option=scale,
                        matching=[n for n in las_names if any(n in conf[u] for u in fmts)])
         dst = os.path.join(outdir, os.path.basename(fp))
         rec.mon('plotlogs_' + kind.lower())
@@ -1026,7 +1139,7 @@ def plotlogs_end_to_end(ctx, cap, lis_path, las_path, las_names, table, conf, pr
                               dict(wit, exception=type(e).__name__, message=str(e)[:300], cause=_cause(e)), exc=e)
             continue
         svgs = sorted(f for f in os.listdir(outdir) if f.startswith(os.path.basename(fp)) and f.endswith('.svg'))
-        rec.case(('plotlogs', kind, ctx.shard), bool(svgs), classes=['plot:PlotLogs-' + kind])
+        rec.case(('plotlogs', kind, ctx.shard), bool(svgs), classes=['plot:PlotLogs-' + kind, 'plot:PlotLogs-scale-option-%d' % scale])
         if not svgs and cap['las'] < 14:
             cap['las'] += 1
             rec.violation(mon, 'plotlogs-no-plot', 'PlotLogs.PlotLogPasses wrote no SVG for the %s file' % kind, dict(wit, info=str(plp.plotLogInfo)[:300]))
